@@ -7,7 +7,8 @@ from vlib import hx, sx
 P_OK = b"@@\n@@\n-baz()\n+qux()\n"
 P_UPDATE = b"@@\nvar x expression\n@@\n-foo()\n+foo(x)\n"
 P_REFORMAT = b"@@\n@@\n-bad\n+1+2\n"
-PATCHES = [("1ok.patch", P_OK), ("2update.patch", P_UPDATE), ("3reformat.patch", P_REFORMAT)]
+P_SELECTOR = b"@@\nvar x expression\n@@\n-wrap(x)\n+pkg.x\n"          # fails where x is not a name
+PATCHES = [("1ok.patch", P_OK), ("2update.patch", P_UPDATE), ("3reformat.patch", P_REFORMAT), ("4selector.patch", P_SELECTOR)]
 
 
 def ok_src(j):
@@ -23,6 +24,9 @@ KINDS = {
     "unparseable-source": (b"package p\n\nfunc f( {\n", "expected", None),
     "rewrite-error": (b"package p\n\nfunc f() {\n\tfoo()\n}\n", None, None),
     "unparseable-result": (b"package p\n\nvar y bad\n", "expected", None),
+    # one change succeeds on the file, another one fails after it has rewritten one of its two sites: no mixture may reach the disk
+    "rewrite-error-next-to-success": (b"package p\n\nfunc f() {\n\tbaz()\n\t_ = wrap(g())\n\t_ = wrap(h)\n}\n", None, None),
+    "rewrite-error-before-success": (b"package p\n\nfunc f() {\n\t_ = wrap(h)\n\t_ = wrap(g())\n\tbaz()\n}\n", None, None),
     "unreadable": (ok_src(9), "permission denied", None),
     "write-fails": (ok_src(9), "permission denied", None),
 }
